@@ -72,9 +72,11 @@ class Machine:
     def members_of(self, cname):
         cls = self.world.classes[cname]
         names = []
+        by_obj = {id(c): nm for nm, c in self.world.classes.items()}  # (several classes may share one Python name)
         for k in cls.__mro__:
-            if k.__name__ in self.world.cspec:
-                cs = self.world.cspec[k.__name__]
+            nm = by_obj.get(id(k))
+            if nm is not None:
+                cs = self.world.cspec[nm]
                 for m in cs.get("methods", ()):
                     if m["name"] not in names:
                         names.append(m["name"])
@@ -227,6 +229,16 @@ class Machine:
                 vv[key] = self._call(td)
                 if manual is not None:
                     self._manual_member(name, obj, m, kind, td, vv[key], manual)
+            # a capture that is only defined when the precondition holds: precondition falsified AND every capture raising
+            pres = [s for s in self._sids_for(m) if "/pre" in s]
+            snaps = sorted(s for s in self.world.contracts if re.match(r"^[A-Za-z0-9_]+\.%s(\.set)?/snap\d+$" % re.escape(m), s))
+            if pres and snaps and manual is not None:
+                sites = {s: {"truth": False} for s in pres}
+                for s in snaps:
+                    sites[s] = {"fault": {"kind": "raise:FaultError"}}
+                td = self._member_probe(name, label, m, kind, sites)
+                v = self._call(td)
+                self._manual_member(name, obj, m, kind, td, v, manual)
             if kind in ("method", "prop"):
                 for s in invs:
                     obj._flags[s] = False
@@ -295,6 +307,8 @@ class Machine:
                     if not c.condition(**sel):
                         return ["viol", idx.get(id(c), "?")]
                 return ["ret"]
+            except core.FaultError as e:
+                return ["fault", type(e).__name__, e.verif_fault[1]]
             finally:
                 a.stack.pop()
                 a.tstack.pop()
